@@ -6,7 +6,8 @@ tables *computed from the model* on representative states (`model…`).  `Props/
 `Generated = expected` (the obligation a code change breaks) and `expected ≈ model` (the tables say what the
 model does).
 
-A row is (case, store, close, returned values, calls, lock operations, further effects in order); roles:
+A row is (case, store, close, returned values, calls, lock operations and map accesses in program order,
+further effects in order); roles:
 `recv` receiver, `p<i>` i-th parameter, `entry#<i>` / `present#<i>` result of the i-th map lookup.
 -/
 namespace PlzVerif.CMap.Facts
@@ -15,35 +16,35 @@ open PlzVerif.CMap
 abbrev Row := String × String × String × String × List String × List String × List String
 
 def expectedSetRows : List Row := [
-  ("absent/ow", "val:param", "-", "true", [], ["Lock", "defer Unlock"], []),
-  ("absent/!ow", "val:param", "-", "true", [], ["Lock", "defer Unlock"], []),
-  ("val/ow", "val:param", "-", "true", [], ["Lock", "defer Unlock"], []),
-  ("val/!ow", "-", "-", "false", [], ["Lock", "defer Unlock"], []),
-  ("waiting/ow", "val:param", "entry#1.Wait", "true", [], ["Lock", "defer Unlock"], []),
-  ("waiting/!ow", "val:param", "entry#1.Wait", "true", [], ["Lock", "defer Unlock"], [])]
+  ("absent/ow", "val:param", "-", "true", [], ["Lock", "defer Unlock", "access"], []),
+  ("absent/!ow", "val:param", "-", "true", [], ["Lock", "defer Unlock", "access"], []),
+  ("val/ow", "val:param", "-", "true", [], ["Lock", "defer Unlock", "access"], []),
+  ("val/!ow", "-", "-", "false", [], ["Lock", "defer Unlock", "access"], []),
+  ("waiting/ow", "val:param", "entry#1.Wait", "true", [], ["Lock", "defer Unlock", "access"], []),
+  ("waiting/!ow", "val:param", "entry#1.Wait", "true", [], ["Lock", "defer Unlock", "access"], [])]
 
 def expectedLazySetRows : List Row := [
-  ("absent", "val:f", "-", "p1(),true", ["p1()"], ["Lock", "defer Unlock"], []),
-  ("val", "-", "-", "entry#1.Val,false", [], ["Lock", "defer Unlock"], []),
-  ("waiting", "val:f", "entry#1.Wait", "p1(),true", ["p1()"], ["Lock", "defer Unlock"], [])]
+  ("absent", "val:f", "-", "p1(),true", ["p1()"], ["Lock", "defer Unlock", "access"], []),
+  ("val", "-", "-", "entry#1.Val,false", [], ["Lock", "defer Unlock", "access"], []),
+  ("waiting", "val:f", "entry#1.Wait", "p1(),true", ["p1()"], ["Lock", "defer Unlock", "access"], [])]
 
 def expectedGetRows : List Row := [
-  ("fast:val", "-", "-", "entry#1.Val,entry#1.Wait,false", [], ["RLock", "RUnlock"], []),
-  ("fast:waiting", "-", "-", "entry#1.Val,entry#1.Wait,false", [], ["RLock", "RUnlock"], []),
-  ("slow:absent", "placeholder", "-", "zero,make(chan),true", [], ["RLock", "RUnlock", "Lock", "defer Unlock"], []),
-  ("slow:val", "-", "-", "entry#2.Val,entry#2.Wait,false", [], ["RLock", "RUnlock", "Lock", "defer Unlock"], []),
-  ("slow:waiting", "-", "-", "entry#2.Val,entry#2.Wait,false", [], ["RLock", "RUnlock", "Lock", "defer Unlock"], [])]
+  ("fast:val", "-", "-", "entry#1.Val,entry#1.Wait,false", [], ["RLock", "access", "RUnlock"], []),
+  ("fast:waiting", "-", "-", "entry#1.Val,entry#1.Wait,false", [], ["RLock", "access", "RUnlock"], []),
+  ("slow:absent", "placeholder", "-", "zero,make(chan),true", [], ["RLock", "access", "RUnlock", "Lock", "defer Unlock", "access"], []),
+  ("slow:val", "-", "-", "entry#2.Val,entry#2.Wait,false", [], ["RLock", "access", "RUnlock", "Lock", "defer Unlock", "access"], []),
+  ("slow:waiting", "-", "-", "entry#2.Val,entry#2.Wait,false", [], ["RLock", "access", "RUnlock", "Lock", "defer Unlock", "access"], [])]
 
 def expectedContainsRows : List Row := [
-  ("any", "-", "-", "present#1", [], ["RLock", "defer RUnlock"], [])]
+  ("any", "-", "-", "present#1", [], ["RLock", "defer RUnlock", "access"], [])]
 
 def expectedValuesRows : List Row := [
-  ("val", "-", "-", "make(slice)", [], ["RLock", "defer RUnlock"], ["append entry#1.Val"]),
-  ("waiting", "-", "-", "make(slice)", [], ["RLock", "defer RUnlock"], [])]
+  ("val", "-", "-", "make(slice)", [], ["RLock", "defer RUnlock", "access"], ["append entry#1.Val"]),
+  ("waiting", "-", "-", "make(slice)", [], ["RLock", "defer RUnlock", "access"], [])]
 
 def expectedRangeRows : List Row := [
-  ("val", "-", "-", "", ["p0(key#1,entry#1.Val)"], ["RLock", "defer RUnlock"], []),
-  ("waiting", "-", "-", "", [], ["RLock", "defer RUnlock"], [])]
+  ("val", "-", "-", "", ["p0(key#1,entry#1.Val)"], ["RLock", "defer RUnlock", "access"], []),
+  ("waiting", "-", "-", "", [], ["RLock", "defer RUnlock", "access"], [])]
 
 def expectedMapRows : List Row := [
   ("Add", "-", "-", "recv.shards[recv.hasher(p0)&recv.mask].Set(p0,p1,false)", [], [], []),
@@ -93,6 +94,18 @@ def expectedGetOrSetRows : List Row :=
 
 def expectedErrGetRows : List Row := [
   ("any", "-", "-", "recv.m.Get(p0).Val,recv.m.Get(p0).Err", ["recv.m.Get(p0)"], [], [])]
+
+/-- Lock discipline of a row: every access to the map happens while the shard lock is held, and a row that
+    stores or closes makes its last access under the write lock.  (`defer` releases at return.) -/
+def rowLockOK (r : Row) : Bool :=
+  let final := r.2.2.2.2.2.1.foldl (fun (acc : Bool × String × String) ev =>
+    let (ok, held, lastAcc) := acc
+    if ev == "Lock" then (ok && held == "", "w", lastAcc)
+    else if ev == "RLock" then (ok && held == "", "r", lastAcc)
+    else if ev == "Unlock" || ev == "RUnlock" then (ok && held != "", "", lastAcc)
+    else if ev == "access" then (ok && held != "", held, held)
+    else (ok, held, lastAcc)) (true, "", "")
+  final.1 && (if r.2.1 != "-" || r.2.2.1 != "-" then final.2.2 == "w" else true)
 
 /-! ### the same tables computed from the model -/
 
